@@ -1972,6 +1972,51 @@ Print Assumptions loopir_TOEPLITZ_model.
 Print Assumptions loopir_TOEPLITZ_tie.
 """
 
+# ---------------------------------------------------------------- rlevinson: translation + theorems for the argument checks and order 1 (T5)
+RLEV_PROOF = 'Proofs/LoopIRRlevinson.v'
+RLEV_THEOREMS = ['loopir_rlevinson_empty', 'loopir_rlevinson_assert', 'loopir_rlevinson_short', 'loopir_rlevinson_order1', 'loopir_rlevinson_tie_le1']
+RLEV_BLOCK = """
+(* The program regenerated on this run (rlevinson with its callee levdown embedded) is, term for term, the one Proofs/LoopIRRlevinson.v is about:
+   its theorems apply.  They cover the argument checks and order 1 only; orders >= 2 rest on the exact evaluation tie. *)
+Require Import Spectrum.Theory.Ops Spectrum.Theory.Vec Spectrum.Model.Levinson Spectrum.Model.LinPred Spectrum.Model.LoopIRTie Spectrum.Model.LoopIRRlev
+               Spectrum.Proofs.LoopIRRlevinson.
+Lemma prog_rlevinson_is_ref : prog_rlevinson = prog_rlevinson_gen0.
+Proof. reflexivity. Qed.
+Theorem loopir_rlevinson_empty :
+  forall (F : Type) (OF : Ops F) (L : Laws OF) (feq : F -> F -> bool) (stop : Z -> F -> F -> bool) (t : bool) (ef : F),
+  run feq stop prog_rlevinson [Some (VArr t []); Some (VF ef)] = OErr IndexError.
+Proof. intros. rewrite prog_rlevinson_is_ref. apply rlevinson_ir_empty. Qed.
+Theorem loopir_rlevinson_assert :
+  forall (F : Type) (OF : Ops F) (L : Laws OF) (feq : F -> F -> bool) (stop : Z -> F -> F -> bool) (t : bool) (a0 : F) (a : list F) (ef : F),
+  feq a0 1%F = false ->
+  run feq stop prog_rlevinson [Some (VArr t (a0 :: a)); Some (VF ef)] = OErr AssertionError /\\ @rlevinson F OF feq (a0 :: a) ef = None.
+Proof. intros. rewrite prog_rlevinson_is_ref. apply rlevinson_ir_assert; assumption. Qed.
+Theorem loopir_rlevinson_short :
+  forall (F : Type) (OF : Ops F) (L : Laws OF) (feq : F -> F -> bool) (stop : Z -> F -> F -> bool) (t : bool) (a0 : F) (ef : F),
+  feq a0 1%F = true ->
+  run feq stop prog_rlevinson [Some (VArr t [a0]); Some (VF ef)] = OErr ValueError /\\ @rlevinson F OF feq [a0] ef = None.
+Proof. intros. rewrite prog_rlevinson_is_ref. apply rlevinson_ir_short; assumption. Qed.
+Theorem loopir_rlevinson_order1 :
+  forall (F : Type) (OF : Ops F) (L : Laws OF) (feq : F -> F -> bool) (stop : Z -> F -> F -> bool) (t : bool) (a0 a1 : F) (ef : F),
+  feq a0 1%F = true ->
+  run feq stop prog_rlevinson [Some (VArr t [a0; a1]); Some (VF ef)] =
+  match @rlevinson F OF feq [a0; a1] ef with
+  | Some (R, st, kr, es) =>
+      ORet [VArr false R; VMat t 2 [[Umat st 0 0; Umat st 0 1]; [Umat st 1 0; Umat st 1 1]]; VArr t kr; VArr true es]
+  | None => OErr ValueError
+  end.
+Proof. intros. rewrite prog_rlevinson_is_ref. apply rlevinson_ir_order1; assumption. Qed.
+Theorem loopir_rlevinson_tie_le1 :
+  forall (F : Type) (OF : Ops F) (L : Laws OF) (feq : F -> F -> bool), (forall a, feq a a = true) ->
+  forall (t : bool) (a : list F) (ef : F), (length a <= 2)%nat -> tie_rlevinson feq prog_rlevinson t a ef = true.
+Proof. intros. rewrite prog_rlevinson_is_ref. apply rlevinson_ir_tie_le1; assumption. Qed.
+Print Assumptions loopir_rlevinson_empty.
+Print Assumptions loopir_rlevinson_assert.
+Print Assumptions loopir_rlevinson_short.
+Print Assumptions loopir_rlevinson_order1.
+Print Assumptions loopir_rlevinson_tie_le1.
+"""
+
 # routine -> the proof file its reference program text lives in, the theorems the generated file instantiates, the block that does it
 THEOREMS = {
     'LEVINSON': dict(proof=LEV_PROOF, theorems=LEV_THEOREMS, block=LEV_BLOCK),
@@ -1981,6 +2026,7 @@ THEOREMS = {
     'HERMTOEP': dict(proof=HERM_PROOF, theorems=HERM_THEOREMS, block=HERM_BLOCK),
     'minvar_psi': dict(proof=MVPSI_PROOF, theorems=MVPSI_THEOREMS, block=MVPSI_BLOCK),
     'TOEPLITZ': dict(proof=TOEP_PROOF, theorems=TOEP_THEOREMS, block=TOEP_BLOCK),
+    'rlevinson': dict(proof=RLEV_PROOF, theorems=RLEV_THEOREMS, block=RLEV_BLOCK),
 }
 
 
